@@ -246,8 +246,8 @@ Proof.
       pose proof (find_child K V p pi cs2 sep ch02 (tr s2) Hnd2 Hfp2 (nth_error_In _ _ Hg2)) as Hf2.
       rewrite Hn in Hf2. congruence. }
     subst ch0 ch02.
-    rewrite (tsim_ismallest _ _ _ _ Hsc).
-    match type of HE with bind ?e _ = _ => destruct e as [sep'|] eqn:Hsep; [cbn [bind] in HE |- *|discriminate HE] end.
+    cbn [bind] in HE |- *.
+    remember (if index =? 0 then (if ltb (key_of o) sep then key_of o else sep) else sep) as sep' eqn:Hsep.
     assert (Hnc : nid child = c) by (eapply find_nid; eauto).
     assert (Hnc2 : nid child2 = c) by (eapply find_nid; eauto).
     pose proof (isplit_sim K V order (fresh s1) _ _ Hsc) as Hsp.
